@@ -72,39 +72,32 @@ class Interp(object):
         return {True, False}
 
     def run(self, f, w, depth=0):
-        """possible return values of f in world w (paths explored over the CFG, unknown conditions both ways)"""
+        """possible return values of f in world w: path-sensitive interpretation (rules/world.py) that follows the boolean
+        locals of f, with the four questions fixed by the world and helpers of the suppr namespace interpreted in turn"""
+        from rules.world import World, ANY
         key = (f.u, tuple(sorted(w.items())))
         if key in self.memo:
             return self.memo[key]
         self.memo[key] = {True, False}      # recursion guard
-        cfg = f.cfg()
+
+        def atom(e):
+            k = e["k"]
+            if k in ("CallExpr", "CXXMemberCallExpr"):
+                d = f.decl(e) or {}
+                if d.get("n") in ATOMS:
+                    return [w[ATOMS[d["n"]]]]
+                g = self.P.funcs.get(d.get("u"))
+                if g is not None and g.u != f.u and not g.dep and g.cfg() is not None and depth < 3 and g.q.startswith("abigail::suppr::") and \
+                        any((g.decl(x) or {}).get("n") in ATOMS for x in g.nodes() if x["k"] in ("CallExpr", "CXXMemberCallExpr")):
+                    return sorted(self.run(g, w, depth + 1))
+            if k == "DeclRefExpr" and (f.decl(e) or {}).get("n") == "ctxt":
+                return [True]            # the gate is about comparisons that have a context
+            return None
+        track = {x.get("d") for x in f.nodes() if x["k"] == "VarDecl" and (f.type(x) or {}).get("c", "").replace("const ", "") in ("bool", "_Bool")}
+        rets = World(f, atom).run_env(track)
         out = set()
-        seen, stack = set(), [cfg.entry]
-        while stack:
-            b = stack.pop()
-            if b in seen:
-                continue
-            seen.add(b)
-            blk = cfg.blocks[b]
-            ret = None
-            for e in blk.elems:
-                if e["k"] == "ReturnStmt":
-                    ret = self.ev(f, e["c"][0], w, depth) if e.get("c") else {True, False}
-                    break
-            if ret is not None:
-                out |= ret
-                continue
-            succs = [s for s in blk.succs if s is not None and s in cfg.blocks]
-            if cfg.branch(b) is not None:
-                vals = None
-                for c in cfg.branch_conds(b):
-                    v = self.ev(f, c, w, depth)
-                    if len(v) == 1:
-                        vals = v
-                        break
-                if vals is not None:
-                    succs = [blk.succs[0 if next(iter(vals)) else 1]]
-            stack.extend(s for s in succs if s is not None)
+        for v in rets:
+            out |= {True, False} if v == ANY else {bool(v)}
         self.memo[key] = out or {True, False}
         return self.memo[key]
 
